@@ -590,6 +590,9 @@ class StyleAttribute(object):
         else:
             styleDict[name] = str(value)
 
+        # Attach or remove the "style" attribute on the tag as properties come and go ( same as dot-access )
+        self._ensureHtmlAttribute()
+
 
 #            if newValue:
 #                # If replacing, just set/override it
